@@ -9,6 +9,7 @@ Open Scope string_scope.
 Inductive dexpr :=
 | DHas (cap : string)                 (* d.ServerHasCapability(cap) *)
 | DEq (a b : string)                  (* a == b *)
+| DAtom (src : string)                (* a boolean call or field, by its source text *)
 | DNot (e : dexpr) | DAnd (a b : dexpr) | DOr (a b : dexpr)
 | DUnknown (src : string).
 
@@ -21,7 +22,8 @@ Inductive dstmt :=
 
 (* the inputs of a run: which capabilities the server has, which equalities between an input and
    a literal hold, the values of the fields that are read before being assigned *)
-Record denv := mkEnv { e_has : string -> bool; e_eq : string -> string -> bool; e_field : string -> string }.
+Record denv := mkEnv { e_has : string -> bool; e_eq : string -> string -> bool; e_field : string -> string;
+                       e_atom : string -> option bool }.
 
 Definition store := list (string * string).
 Fixpoint sget (s : store) (k : string) : option string :=
@@ -33,6 +35,7 @@ Fixpoint eval (env : denv) (e : dexpr) : option bool :=
   match e with
   | DHas c => Some (e_has env c)
   | DEq a b => Some (e_eq env a b)
+  | DAtom a => e_atom env a
   | DNot x => option_map negb (eval env x)
   | DAnd a b => match eval env a, eval env b with Some x, Some y => Some (x && y) | _, _ => None end
   | DOr a b => match eval env a, eval env b with Some x, Some y => Some (x || y) | _, _ => None end
